@@ -8,7 +8,7 @@ use crate::client::{ClientSpec, ClientView, run_client};
 use crate::conn::{Wall, install_wall};
 use crate::pipe::{St, WRule, pipe};
 use crate::rng::Fnv;
-use crate::services::{RecLocalization, Services, SimAuth, SimDiscovery, SimFilter, SimStatus, SimStrategy, shared};
+use crate::services::{RecLocalization, Services, SimAuth, SimDiscovery, SimStatus, SimStrategy, shared};
 use crate::world::{Event, hexopt, new_world};
 use passage_protocol::listener::{Listener, ParseConfig};
 use passage_protocol::rate_limiter::RateLimiter;
@@ -349,7 +349,7 @@ async fn run_net_async(sc: &NetScenario) -> NetOutcome {
         let status = Arc::new(SimStatus::new(&sh, sc.services.status.clone()));
         let auth = Arc::new(SimAuth::new(&sh, sc.services.auth.clone()));
         let disc = Arc::new(SimDiscovery::new(&sh, sc.services.discovery.clone()));
-        let filt = Arc::new(SimFilter::new(&sh, sc.services.filter.clone()));
+        let filt = Arc::new(crate::services::filter_chain(&sh, &sc.services));
         let strat = Arc::new(SimStrategy::new(&sh, sc.services.strategy.clone()));
         let loc = Arc::new(RecLocalization::new(&sh, &sc.services.localization));
         let mut listener = Listener::new(status, disc, filt, strat, auth, loc)
